@@ -67,6 +67,8 @@ def main():
             stats.record(case, ctx)
             flush()
             return
+        except Exception as e:  # harness bug on this case: inconclusive, counted
+            harness.note_harness_exception(stats, ctx, e)
         stats.record(case, ctx)
         state["n"] += 1
         if state["n"] % 200 == 0:
